@@ -137,9 +137,10 @@ def run(tier, fx=None, ck=None, control=False):
     tops = {p: f for p, f in scope.items() if not f.closure}
 
     # ------------------------------------------------------------ subjects
-    runners = []      # functions that take a program out of PM and register in LM
+    runners = []      # functions that take a program out of PM and register in LM (themselves or through a helper they call)
+    inserters = {p for p, f in tops.items() if table_calls(f, LM, {"insert"})}
     for p, f in tops.items():
-        if table_calls(f, PM, {"remove"}) and table_calls(f, LM, {"insert"}):
+        if table_calls(f, PM, {"remove"}) and (p in inserters or any(t[1].get("d") in inserters for bi, t in f.calls())):
             runners.append(f)
     if not ck.anchor(len(runners) >= 1, pre + "module runner (removes from pending_module_sources, inserts into loaded_modules)"):
         return ck.finish() if own else None
@@ -274,12 +275,29 @@ def run(tier, fx=None, ck=None, control=False):
                 continue     # gated at the runner's call sites
             if top in source_module_builders(fx, tops):
                 continue     # internal source modules import internal modules only (created on demand)
-            once, deps, why = gate_sites(h, bi, None)
             where = F.short_span(t[6])
+
+            def gated(hf, blk, depth=0):
+                """the site is behind a gate here, or the enclosing helper is only called behind one"""
+                once_, deps_, why_ = gate_sites(hf, blk, None)
+                if deps_:
+                    return True, why_, hf.path
+                if depth >= 3:
+                    return False, why_, hf.path
+                topf = hf.parent if hf.closure else hf.path
+                callers = [(g, cb) for g in scope.values() for cb, ct in g.calls() if ct[1].get("d") == topf]
+                if not callers or hf.vis == "Public":
+                    return False, why_, hf.path
+                for g, cb in callers:
+                    okc, whyc, wherec = gated(g, cb, depth + 1)
+                    if not okc:
+                        return False, whyc, wherec
+                return True, "", hf.path
+            deps, why, at = gated(h, bi)
             ck.instance("R2.deps-first", "%s installs import bindings" % top, where, ok=deps)
             if not deps:
-                ck.finding("R2.deps-first", "R2.deps-first/%s/bindings" % top, where,
-                           "`%s` installs the import bindings of a program, but %s" % (top, why))
+                ck.finding("R2.deps-first", "R2.deps-first/%s/bindings" % at, where,
+                           "`%s` installs the import bindings of a program, but %s" % (at, why))
 
     # ------------------------------------------------------------ R3
     ck.rule("R3.canonical-keys", "ImportRequest.resolved_path is the result of ModulePath::resolve; the interpreter never builds a ModulePath from raw text",
